@@ -49,7 +49,8 @@ def main():
             open(path, 'w').write(s.replace(old, new, 1))
         if tests:
             r = subprocess.run(['/venv/bin/python', '-m', 'pytest', '-q', '-p', 'no:cacheprovider', '-x'],
-                               cwd=wt, capture_output=True, text=True)
+                               cwd=wt, capture_output=True, text=True,
+                               env=dict(os.environ, PYTHONPATH=os.path.join(wt, 'src')))
             print('repo tests:', r.stdout.strip().splitlines()[-1] if r.stdout.strip() else r.stderr[-300:])
         env = dict(os.environ, VP_REPO=wt, VP_BUDGET=budget, PYTHONPATH='/verif', VP_NO_EVIDENCE='1')
         for p in prop.split(','):
